@@ -96,10 +96,26 @@ Fixpoint comp_update (id : Z) (u : upd) (l : list (Z * compstate)) : list (Z * c
     else (k, c) :: comp_update id u r
   end.
 
+(* The three clearing commands act on what the components show at the moment they are received:
+   "Clear" forgets every component setting, "ClearLEDs" the modes and colours, "ClearDisplays" the
+   texts and images.  This is what makes the ORDER between state writes and commands observable in
+   the panel (a state written before a Clear is gone, one written after it stays). *)
+Definition cs_clear_leds (c : compstate) : compstate :=
+  mkCS None None (cs_ext c) (cs_text c) (cs_gfx c) (cs_adc c).
+Definition cs_clear_displays (c : compstate) : compstate :=
+  mkCS (cs_mode c) (cs_colour c) (cs_ext c) None None (cs_adc c).
+Definition comps_after_cmd (c : cmd) (l : list (Z * compstate)) : list (Z * compstate) :=
+  match c with
+  | CBare KClear => []
+  | CBare KClearLEDs => map (fun kc => (fst kc, cs_clear_leds (snd kc))) l
+  | CBare KClearDisplays => map (fun kc => (fst kc, cs_clear_displays (snd kc))) l
+  | _ => l
+  end.
+
 Definition apply_eff (p : panel) (e : effect) : panel :=
   match e with
   | EState ids u => mkPanel (fold_left (fun l id => comp_update id u l) ids (p_comp p)) (p_log p) (p_regs p)
-  | ECmd c => mkPanel (p_comp p) (p_log p ++ [c]) (p_regs p)
+  | ECmd c => mkPanel (comps_after_cmd c (p_comp p)) (p_log p ++ [c]) (p_regs p)
   | EReg k id v => mkPanel (p_comp p) (p_log p) (p_regs p ++ [(k, id, v)])
   end.
 Definition apply_effs (p : panel) (es : list effect) : panel := fold_left apply_eff es p.
